@@ -153,6 +153,7 @@ def run(ctx):
         for i, nm in ((1, "timestamp"), (4, "block_number"), (5, "block_hash")):
             a = origin(fn, c.args[i])
             R.ob(mentions(a, nm), "WIRE", c.where(), "WIRE|drain|%s" % nm, "drained transaction executes with %s = `%s`" % (nm, show(a)[:60]))
+    ER.clause_drain_own_data(R, F)
     ER.clause_park_rows_together(R, F)
     # finalise always clears the pool
     fin = ER.operation_bodies_calling(F, "finalise_block", "clear_txpool")
